@@ -4,8 +4,8 @@ package props
 import (
 	"embed"
 	"fmt"
-	"os"
 	"go/types"
+	"os"
 	"regexp"
 	"strings"
 
